@@ -253,7 +253,7 @@ def result_doc(style: str, entries: list[tuple[str, str, str]]) -> str:
     elif style == "GOOGLE":
         lines.append("Returns:")
         n, t, d = entries[0]
-        lines.append(f"    {t}: {d}")
+        lines.append(f"    r ({t}): {d}")  # the spelling griffe's Google parser reads as (name, type, description)
     elif style == "REST":
         n, t, d = entries[0]
         lines += [f":returns: {d}", f":rtype: {t}"]
@@ -294,6 +294,18 @@ def _case(draw: Any, args: dict) -> dict:
         doc = result_doc(style, entries) if entries else (draw(st.sampled_from([None, "Just a description."])))
         f = gt.func(namer.fresh("ann_"), [gt.param("a", "pos", ["int"], None)], ret=t, doc=doc, tags=tags)
         f["doc_results"] = [list(e) for e in entries]
+        f["part"] = "A"
+        decls.append(f)
+    # results that only the docstring knows (no return hint, nothing to infer)
+    for _ in range(draw(st.integers(0, 2)) if style != "PLAINTEXT" else 0):
+        k = draw(st.integers(1, 2)) if style == "NUMPYDOC" else 1
+        terms = [draw(st.sampled_from([["int"], ["str"], ["bool"], ["float"], ["list", ["int"]]])) for _ in range(k)]
+        named = style == "NUMPYDOC" and draw(st.booleans())
+        nm = draw(st.permutations(DOC_NAMES))
+        entries = [(nm[i] if named else "", ref.render_py(terms[i], ref.Imports(), ""), f"tok{namer.fresh('d')}") for i in range(k)]
+        f = gt.func(namer.fresh("doconly_"), [gt.param("a", "pos", ["int"], None)], ret=None, doc=result_doc(style, entries), tags=[])
+        f["doc_results"] = [list(e) for e in entries]
+        f["doc_terms"] = terms
         f["part"] = "A"
         decls.append(f)
     # Part B
@@ -463,11 +475,11 @@ def judge(case: dict) -> dict:
             if results and [names.rendered(n, nc) for n in api_names] != got_names:
                 discs.append(Discrepancy.make("api_results_differ_from_stub", el, f"api {api_names} vs stub {got_names}", []))
         if d["part"] == "A":
-            elems = annotated_elems(d["ret"])
+            elems = d["doc_terms"] if d.get("doc_terms") else annotated_elems(d["ret"])
             exp_types = [ref.tr(x) for x in elems]
             res["stats"].append(f"A:{style}:{'doc' if d['doc_results'] else 'nodoc'}")
             if got_types != exp_types:
-                discs.append(Discrepancy.make("annotated_results_differ", el, f"annotation {ref.render_py(d['ret'], ref.Imports(), '')}: stub {[ref.show(t) for t in got_types]} != {[ref.show(t) for t in exp_types]}", list(d["tags"])))
+                discs.append(Discrepancy.make("annotated_results_differ", el, f"annotation {ref.render_py(d['ret'], ref.Imports(), '') if d['ret'] else '(docstring only)'}: stub {[ref.show(t) for t in got_types]} != {[ref.show(t) for t in exp_types]}", list(d["tags"])))
                 continue
             exp_names = [f"result_{i + 1}" for i in range(len(elems))]
             if style == "NUMPYDOC" and d["doc_results"] and len(d["doc_results"]) == len(elems) and all(e[0] for e in d["doc_results"]):
@@ -477,7 +489,7 @@ def judge(case: dict) -> dict:
             if got_names != exp_rendered:
                 discs.append(Discrepancy.make("result_names_differ", el, f"stub {got_names} != expected {exp_rendered} (nc={nc}, style={style})", list(d["tags"])))
             if len(elems) >= 2:
-                res["nontrivial"].append(f"A|{ref.render_py(d['ret'], ref.Imports(), '')}|{style}|{bool(d['doc_results'])}|{nc}")
+                res["nontrivial"].append(f"A|{ref.render_py(d['ret'], ref.Imports(), '') if d['ret'] else 'doconly'}|{style}|{bool(d['doc_results'])}|{nc}")
         else:
             rets = collect_returns(d["body_ast"])
             shapes: list[tuple[list, tuple[str, ...]]] = []
